@@ -131,3 +131,9 @@ package rapidcore
 //@ func (SandboxContext).Init
 //@   ensures [api-address] has(init.EnvironmentVariables.platform, "AWS_LAMBDA_RUNTIME_API") && init.EnvironmentVariables.platform["AWS_LAMBDA_RUNTIME_API"] == s.runtimeAPIAddress
 //@   ensures [handler-override] len(s.handler) > 0 ==> has(init.EnvironmentVariables.runtime, "_HANDLER") && init.EnvironmentVariables.runtime["_HANDLER"] == s.handler
+
+// C08: clearing the server for the next generation forgets the reservation and the cached init error response
+//@ func (*Server).Clear
+//@   requires s != nil
+//@   ensures [no-reservation-left] s.invokeCtx == nil
+//@   ensures [no-cached-init-error-left] s.cachedInitErrorResponse == nil
